@@ -311,7 +311,7 @@ def correspondence(ctx):
     rng = ctx.rng
     cases, terms = [], []
     nmax = 10 if ctx.thorough else 6
-    reps = 4 if ctx.thorough else 2
+    reps = 6 if ctx.thorough else 3
     for n in list(range(1, nmax + 1)) + ([17, 33, 100] if ctx.thorough else [17]):
         for cls in CLASSES:
             for rep in range(reps):
@@ -419,7 +419,7 @@ def run(ctx):
         ctx.case('oracle/delta_kernel', ('dk', k))
     ctx.obligation('contract:sigma0-kernel-is-delta(blur 0 f = f)', not any(v['function'].endswith('add_defocus_blur') for v in ctx.viol), 'see violations')
     # direct oracles
-    nor = 900 if ctx.thorough else 170
+    nor = 1500 if ctx.thorough else 300
     for k in range(nor):
         kind = 'slice' if k % 3 == 2 else 'multiplane'
         inp = gen_oracle_case(ctx.rng, kind, big=(k % 10 == 0))
